@@ -94,6 +94,9 @@ type Opts struct {
 	Fine    bool // additional point after every atomic operation
 	Trace   bool // record a readable trace
 	NoKeys  bool // skip state-key computation (cache disabled)
+	// Reverse flips the default schedule's priority among the other goroutines (highest creation
+	// index first instead of lowest): a second reference schedule for deviation bounding.
+	Reverse bool
 }
 
 type obj struct{ h, reads uint64 }
@@ -287,7 +290,8 @@ func (e *Exec) schedule() {
 		e.abort(g)
 		return
 	}
-	// enabled set in canonical order: running goroutine first, then ascending idx
+	// enabled set in canonical order: running goroutine first, then ascending idx (descending
+	// when the reference schedule is reversed)
 	var first *G
 	n := 0
 	runningEnabled := g.enabled()
@@ -295,8 +299,15 @@ func (e *Exec) schedule() {
 		first = g
 		n = 1
 	}
-	for _, o := range e.gs {
-		if o != g && o.enabled() {
+	ng := len(e.gs)
+	at := func(i int) *G {
+		if e.Opts.Reverse {
+			return e.gs[ng-1-i]
+		}
+		return e.gs[i]
+	}
+	for i := 0; i < ng; i++ {
+		if o := at(i); o != g && o.enabled() {
 			if first == nil {
 				first = o
 			}
@@ -316,8 +327,8 @@ func (e *Exec) schedule() {
 			if runningEnabled {
 				k = 1
 			}
-			for _, o := range e.gs {
-				if o != g && o.enabled() {
+			for i := 0; i < ng; i++ {
+				if o := at(i); o != g && o.enabled() {
 					if k == idx {
 						next = o
 						break
